@@ -60,4 +60,20 @@ AllDistinct(inputs) == \A i, j \in 1..Len(inputs) : i # j => Names(inputs)[i] # 
 \* ------------------------------------------------------------------ 2. the on-the-fly run
 \* steps in order; a step may fail; the scratch directory created at the start is removed in every case
 Steps == <<"mktmp", "refdir", "refmarkers", "qmarkers", "mapping", "patch", "cleanup">>
+
+\* ------------------------------------------------------------------ 3. the validation runner (cli/validate_h5ad.py)
+\* The validation function either writes a new file (something had to change) or reports that nothing has to.  The
+\* runner names the valid file: the written one; else a COPY of the input at valid_h5ad_path when that destination was
+\* given; else the input itself.  Written files and copies carry the number of mapped genes in uns; a copy of a file
+\* that already carries the number keeps it.  Validating a valid file again changes nothing.
+None3 == -1
+ValidKind(change, dest) == IF change THEN "written" ELSE IF dest = "valid_path" THEN "copy" ELSE "input"
+\* file state: [fixed : the content is already valid, rec : recorded number or None3]
+AfterValidate(f, dest, nmapped) ==
+    LET change == ~f.fixed IN
+    [kind |-> ValidKind(change, dest),
+     file |-> [fixed |-> TRUE,
+               rec |-> IF change THEN nmapped
+                       ELSE IF f.rec # None3 THEN f.rec
+                       ELSE IF dest = "valid_path" THEN nmapped ELSE None3]]
 =============================================================================
